@@ -1,4 +1,5 @@
 """C16 - multi-source fetch merges whatever succeeded, independent of timing."""
+import concurrent.futures
 import json
 import os
 
@@ -6,30 +7,68 @@ from lib import vcheck
 from checks.pipeline import pipeline
 
 
+def _tlc_all(ctx, jobs, width=5):
+    """Independent TLC runs side by side (small models, the JVM start dominates: 4 workers each unless the job says
+    otherwise). jobs: list of kwargs of ctx.tlc."""
+    with concurrent.futures.ThreadPoolExecutor(max_workers=width) as ex:
+        futs = [ex.submit(ctx.tlc, "Fetch", "MCFetch.cfg", **dict({"workers": 4}, **j)) for j in jobs]
+        concurrent.futures.wait(futs)
+    return [f.result() for f in futs]      # the first failure (Infra) is raised here, in job order
+
+
 def run(ctx, replay):
     binary = ctx.build("c16")
     if replay:
         raise vcheck.Infra("C16 violations are trace events: rerun with VERIF_SEED=%s" % json.load(open(replay)).get("seed"))
-    # the design: every completion order x failure subset, chunks of 2 so that chunk boundaries are crossed in the model
-    ctx.tlc("Fetch", "MCFetch.cfg", consts={"NSrc": 3, "NBase": 1, "ChunkSize": 2, "Emit": False}, timeout=900, name="MCFetch(chunk=2)")
-    if ctx.tier == "thorough":
-        ctx.tlc("Fetch", "MCFetch.cfg", consts={"NSrc": 3, "NBase": 2, "ChunkSize": 1, "Emit": False}, timeout=3000, name="MCFetch(chunk=1,2 bases)")
-    for b in ("completionOrder", "emptyChunkFails", "noBarrier"):
-        g = ctx.tlc("Fetch", "MCFetch.cfg", consts={"Broken": b}, expect_ok=False, timeout=300, name="MCFetch-" + b)
+    cases_a = os.path.join(ctx.scratch, "cases-local.ndjson")
+    cases_b = os.path.join(ctx.scratch, "cases-urls.ndjson")
+    thorough = ctx.tier == "thorough"
+    # the design: every completion order x class vector, chunks of 2 so that chunk boundaries are crossed in the model;
+    # with the URL classes (errbody, remote) and both outcomes of the shared transport's one-time initialisation in
+    # chunks of 1, so that what the initialisation left behind is carried across chunk boundaries
+    jobs = [dict(consts={"NSrc": 3, "NBase": 1, "ChunkSize": 2, "Emit": False}, timeout=900, name="MCFetch(chunk=2)"),
+            dict(consts={"NSrc": 2, "NBase": 1, "ChunkSize": 1, "Classes": "all", "Emit": False}, timeout=900, name="MCFetch(all classes,chunk=1)")]
+    if thorough:
+        jobs.append(dict(consts={"NSrc": 3, "NBase": 2, "ChunkSize": 1, "Emit": False}, timeout=3000, workers=vcheck.NCPU, name="MCFetch(chunk=1,2 bases)"))
+        jobs.append(dict(consts={"NSrc": 3, "NBase": 1, "ChunkSize": 2, "Classes": "all", "Emit": False}, timeout=3000, workers=vcheck.NCPU, name="MCFetch(all classes,chunk=2)"))
+    guards = [("completionOrder", {}), ("emptyChunkFails", {}), ("noBarrier", {}),
+              # the outcome of a source must not depend on which fetch reached the shared transport first / on the
+              # body of an error answer
+              ("initErrOnce", {"NSrc": 2, "Classes": "all"}), ("errBodyParsed", {"NSrc": 2, "Classes": "all"})]
+    for b, extra in guards:
+        jobs.append(dict(consts=dict(extra, Broken=b), expect_ok=False, timeout=300, name="MCFetch-" + b))
+    # behaviours with everything in one chunk (the real chunk size is 128): replayed with a gating Fetcher;
+    # 3 sources + 1 base of the classes ok / fail, and 2 (thorough: 3) sources + 1 base of the classes ok / errbody / remote
+    # under a transport whose initialisation succeeds or fails
+    jobs.append(dict(consts={"NSrc": 3, "NBase": 1, "ChunkSize": 128, "Emit": True}, emit_to=cases_a, timeout=900, name="GenFetch"))
+    jobs.append(dict(consts={"NSrc": 3 if thorough else 2, "NBase": 1, "ChunkSize": 128, "Classes": "remote", "Emit": True}, emit_to=cases_b, timeout=900,
+                     name="GenFetch(urls)"))
+    results = _tlc_all(ctx, jobs)
+    for (b, _), g in zip(guards, [r for r in results if r["name"].startswith("MCFetch-")]):
         if not g["violated"]:
             raise vcheck.Infra("vacuity guard %s: %s" % (b, g["out"][-1500:]))
-    # behaviours with everything in one chunk (the real chunk size is 128): replayed with a gating Fetcher
     cases = os.path.join(ctx.scratch, "cases.ndjson")
-    ctx.tlc("Fetch", "MCFetch.cfg", consts={"NSrc": 3, "NBase": 1, "ChunkSize": 128, "Emit": True}, emit_to=cases, timeout=900, name="GenFetch")
+    with open(cases, "w") as f:
+        for p in (cases_a, cases_b):
+            n = 0
+            for line in open(p):
+                f.write(line)
+                n += 1
+            if n == 0:
+                raise vcheck.Infra("no cases emitted into %s" % os.path.basename(p))
     trace = os.path.join(ctx.scratch, "trace.ndjson")
-    ctx.harness(binary, cases=cases, trace=trace, n=60 if ctx.tier == "thorough" else 12, timeout=3000)
+    s = ctx.harness(binary, cases=cases, trace=trace, n=60 if thorough else 12, timeout=3000)
+    c = s.get("counters") or {}
+    if not s.get("infra_errors") and not (c.get("runs:urls") and c.get("runs:urls-tls-setup-broken")):
+        raise vcheck.Infra("the harness ran no behaviour with URL sources: %s" % c)
     res = ctx.tlc("TraceFetch", "TraceFetch.cfg", workers=1, files={"trace.ndjson": trace}, timeout=1800, name="TraceFetch")
-    vcheck.trace_verdict(ctx, res, trace, trace + ".in", check="trace-fetch", describe=lambda ev: "fetch:%s:n=%d" % (ev.get("schedule"), len(ev["srcok"])))
+    vcheck.trace_verdict(ctx, res, trace, trace + ".in", check="trace-fetch", describe=lambda ev: "fetch:%s:n=%d" % (ev.get("schedule"), len(ev["srcout"])))
     # whole runs against Pprof.tla: every source fetched once, the Symbolizer sees the bag sum of whatever succeeded,
     # an error only when nothing was fetched
     pipeline(ctx, kinds=("config", "fetch", "sym", "error"))
     return ctx.finish(
         "model_checking",
-        assumptions=["completion orders are forced at the Fetcher plug-in boundary (each fetch returns only when released, the next is released after the previous returned); the goroutine's own bookkeeping after Fetch returns is not gated",
+        assumptions=["completion orders are forced at the Fetcher plug-in boundary (each fetch returns only when released, the next is released after the previous returned) and, for URL sources in half of the runs, in front of the real transport's RoundTrip; the goroutine's own bookkeeping after Fetch returns is not gated",
                      "the merge order is observed through the comment each source contributes (comments merge as an ordered union) and every source's unique sample",
-                     "failure kinds: plug-in error, invalid profile, missing file, garbage file, HTTP 500 through the transport plug-in"])
+                     "failure kinds: plug-in error, invalid profile, missing file, garbage file, HTTP 500 / HTTP 404 with a profile as the body through the transport plug-in; URL sources served by local plain / TLS servers through the real internal/transport: error status (500, 404, 503, 403, 502) with a well-formed profile as the body, and 200 under TLS set-ups whose one-time initialisation succeeds or fails",
+                     "whether a source counts as fetched is Fetch.tla's Ok(class, transport initialisation) - a function of the source and the configuration alone; timing decides nothing"])
